@@ -1,14 +1,25 @@
-"""Runtime monitors compiled from the same contract files (bounded stand-ins and counterexample replay).
+"""Runtime monitors compiled from the same contract files (CPython cross-check of the contracts, counterexample replay).
 
-A wrapper per contracted function evaluates `requires` on entry, snapshots old(...), evaluates `ensures` and the
-`raises` clauses on exit.  Wrappers are installed by rebinding the name in every selfies.* namespace holding the
-function object (by identity), evaluations are counted per clause.
+A wrapper per contracted function checks the declared parameter types and `requires` on entry (a call outside the
+contract's domain is counted as pre-miss and nothing is claimed for it), takes a snapshot of the heap reachable from
+the arguments and the declared module globals, and on exit evaluates `ensures` / `raises(when=, unchanged=)` /
+`ensures_on_raise` / `yields` with CPython.  `old(e)` is evaluated on the snapshot with the comprehension variables
+bound at that point, and references found there are mapped back to the live objects, so that `x == old(y)` on
+references is identity, as in the verifier.  Spec forms that cannot be observed at run time (fresh, allocated,
+memo_clean: constant True; iter_pos/iter_item/...: the clause is skipped and listed) are under-approximations in
+ensures position only.  `anyvalue()` ranges over every key of every dict reachable before or after the call: exact for
+quantifiers guarded by a membership test, which is the only way the contracts use it.
+Wrappers are installed by rebinding the name in every selfies.* namespace holding the function object (by identity),
+evaluations are counted per clause.
 """
 import ast
+import collections
 import copy
+import enum
 import functools
 import importlib
 import inspect
+import re
 import sys
 import types
 
@@ -21,23 +32,463 @@ class ContractViolation(Exception):
         self.oid, self.kind, self.detail, self.call = oid, kind, detail, call
 
 
-class _OldCollector(ast.NodeTransformer):
-    def __init__(self):
+class NotEvaluable(Exception):
+    """The clause uses a ghost notion with no run-time counterpart."""
+
+
+# ------------------------------------------------------------------------------------------ source transformation
+def _comp_names(target):
+    return [n.id for n in ast.walk(target) if isinstance(n, ast.Name)]
+
+
+class _Runtime(ast.NodeTransformer):
+    """Gives contract text its verifier meaning under CPython:
+    implies(a, b) is lazy in b; == / != on containers and objects is identity (references), structural on tuples and
+    values; p.pk_<kw> / p.pkhas_<kw> read the keywords of a functools.partial; old(E) in a clause becomes
+    __old(k, {comprehension variables}); old(E) inside a spec function becomes __oldx(lambda v...: E, v...)."""
+
+    def __init__(self, clause_level, params=()):
+        self.clause_level = clause_level
         self.olds = []
+        self.bound = []
+        self.params = list(params)
+
+    def _comp(self, node):
+        pushed = 0
+        for g in node.generators:
+            g.iter = self.visit(g.iter)
+            self.bound.append(_comp_names(g.target))
+            pushed += 1
+            g.ifs = [self.visit(c) for c in g.ifs]
+        if isinstance(node, ast.DictComp):
+            node.key = self.visit(node.key)
+            node.value = self.visit(node.value)
+        else:
+            node.elt = self.visit(node.elt)
+        for _ in range(pushed):
+            self.bound.pop()
+        return node
+
+    visit_GeneratorExp = visit_ListComp = visit_SetComp = visit_DictComp = _comp
+
+    def visit_FunctionDef(self, node):
+        if self.clause_level:
+            return node
+        saved = self.params
+        self.params = [a.arg for a in node.args.args]
+        node.body = [self.visit(st) for st in node.body]
+        self.params = saved
+        return node
 
     def visit_Call(self, node):
-        if isinstance(node.func, ast.Name) and node.func.id == 'old':
-            k = len(self.olds)
-            self.olds.append(node.args[0])
-            return ast.Subscript(value=ast.Name(id='__old', ctx=ast.Load()), slice=ast.Constant(k), ctx=ast.Load())
+        if isinstance(node.func, ast.Name) and node.func.id == 'old' and len(node.args) == 1:
+            names = [n for b in self.bound for n in b]
+            if self.clause_level:
+                k = len(self.olds)
+                inner = _Runtime(True)
+                inner.no_old = True
+                self.olds.append(inner.visit(copy.deepcopy(node.args[0])))
+                binds = ast.Dict(keys=[ast.Constant(n) for n in names],
+                                 values=[ast.Name(id=n, ctx=ast.Load()) for n in names])
+                return ast.Call(func=ast.Name(id='__old', ctx=ast.Load()), args=[ast.Constant(k), binds], keywords=[])
+            body = self.visit(node.args[0])
+            used = {n.id for n in ast.walk(body) if isinstance(n, ast.Name)}
+            vs = [n for n in dict.fromkeys(self.params + names) if n in used]
+            lam = ast.Lambda(args=ast.arguments(posonlyargs=[], args=[ast.arg(arg=v) for v in vs], kwonlyargs=[],
+                                                kw_defaults=[], defaults=[]), body=body)
+            return ast.Call(func=ast.Name(id='__oldx', ctx=ast.Load()),
+                            args=[lam] + [ast.Name(id=v, ctx=ast.Load()) for v in vs], keywords=[])
         self.generic_visit(node)
+        if isinstance(node.func, ast.Name) and node.func.id == 'implies' and len(node.args) == 2:
+            return ast.BoolOp(op=ast.Or(), values=[ast.UnaryOp(op=ast.Not(), operand=node.args[0]), node.args[1]])
         return node
+
+    def visit_Compare(self, node):
+        self.generic_visit(node)
+        if not any(isinstance(o, (ast.Eq, ast.NotEq)) for o in node.ops):
+            return node
+        parts, left = [], node.left
+        for op, right in zip(node.ops, node.comparators):
+            if isinstance(op, ast.Eq):
+                parts.append(ast.Call(func=ast.Name(id='__eq', ctx=ast.Load()), args=[left, right], keywords=[]))
+            elif isinstance(op, ast.NotEq):
+                parts.append(ast.UnaryOp(op=ast.Not(), operand=ast.Call(func=ast.Name(id='__eq', ctx=ast.Load()),
+                                                                        args=[left, right], keywords=[])))
+            else:
+                parts.append(ast.Compare(left=left, ops=[op], comparators=[right]))
+            left = right
+        return parts[0] if len(parts) == 1 else ast.BoolOp(op=ast.And(), values=parts)
+
+    def visit_Attribute(self, node):
+        self.generic_visit(node)
+        if isinstance(node.ctx, ast.Load) and node.attr.startswith('pkhas_'):
+            return ast.Call(func=ast.Name(id='__pkhas', ctx=ast.Load()), args=[node.value, ast.Constant(node.attr[6:])],
+                            keywords=[])
+        if isinstance(node.ctx, ast.Load) and node.attr.startswith('pk_'):
+            return ast.Call(func=ast.Name(id='__pk', ctx=ast.Load()), args=[node.value, ast.Constant(node.attr[3:])],
+                            keywords=[])
+        return node
+
+
+def transform_module(tree):
+    """contract file -> module whose spec functions evaluate with the verifier's meaning (see _Runtime)"""
+    t = _Runtime(False).visit(tree)
+    ast.fix_missing_locations(t)
+    return t
 
 
 def _compile(expr):
     e = ast.Expression(body=expr)
     ast.fix_missing_locations(e)
     return compile(e, '<contract>', 'eval')
+
+
+def _rt(expr):
+    return _compile(_Runtime(True).visit(copy.deepcopy(expr)))
+
+
+def _with_olds(expr):
+    col = _Runtime(True)
+    body = col.visit(copy.deepcopy(expr))
+    return _compile(body), [_compile(o) for o in col.olds]
+
+
+# ------------------------------------------------------------------------------------------ heap snapshot
+_ATOMS = (int, float, str, bytes, bool, type(None), type, types.FunctionType, types.BuiltinFunctionType,
+          types.ModuleType, types.MethodType, re.Pattern, enum.Enum, functools.partial, BaseException, range,
+          frozenset)
+
+
+class Snapshot:
+    def __init__(self, roots):
+        self.memo = {}      # id(original) -> copy
+        self.orig = {}      # id(original) -> original (kept alive)
+        self.back = {}      # id(copy) -> original
+        self.dicts = []     # original dict objects reachable at snapshot time
+        self.copies = [self.cp(r) for r in roots]
+
+    def _reg(self, x, c):
+        self.memo[id(x)] = c
+        self.orig[id(x)] = x
+        self.back[id(c)] = x
+        return c
+
+    def cp(self, x):
+        if isinstance(x, _ATOMS):
+            return x
+        i = id(x)
+        if i in self.memo:
+            return self.memo[i]
+        if isinstance(x, list):
+            c = self._reg(x, [])
+            c.extend(self.cp(e) for e in x)
+            return c
+        if isinstance(x, collections.deque):
+            c = self._reg(x, collections.deque())
+            c.extend(self.cp(e) for e in x)
+            return c
+        if isinstance(x, dict):
+            c = self._reg(x, {})
+            self.dicts.append(x)
+            for k, v in x.items():
+                c[k] = self.cp(v)
+            return c
+        if isinstance(x, set):
+            return self._reg(x, set(x))
+        if isinstance(x, tuple):
+            c = tuple(self.cp(e) for e in x)
+            if all(a is b for a, b in zip(c, x)):
+                return x
+            return self._reg(x, c)
+        mod = getattr(type(x), '__module__', '') or ''
+        if mod.startswith('selfies') and hasattr(x, '__dict__'):
+            try:
+                c = object.__new__(type(x))
+            except TypeError:
+                return x
+            self._reg(x, c)
+            for k, v in vars(x).items():
+                c.__dict__[k] = self.cp(v)
+            return c
+        return x        # iterators, generators, foreign objects: atomic
+
+    def to_copy(self, v):
+        return self.memo.get(id(v), v)
+
+    def to_orig(self, v):
+        if id(v) in self.back:
+            return self.back[id(v)]
+        if isinstance(v, tuple):
+            return tuple(self.to_orig(e) for e in v)
+        return v
+
+    def same_state(self, obj):
+        """contents of the container/object `obj` are what they were at snapshot time (references by identity)"""
+        if id(obj) not in self.memo:
+            raise NotEvaluable('object not present in the pre-state')
+        c = self.memo[id(obj)]
+        if isinstance(obj, dict):
+            return list(obj.keys()) == list(c.keys()) and all(self.to_orig(c[k]) is obj[k] or self.to_orig(c[k]) == obj[k]
+                                                               for k in obj)
+        if isinstance(obj, (list, collections.deque)):
+            return len(obj) == len(c) and all(self.to_orig(a) is b or self.to_orig(a) == b for a, b in zip(c, obj))
+        if isinstance(obj, set):
+            return obj == c
+        if hasattr(obj, '__dict__'):
+            return vars(obj).keys() == vars(c).keys() and all(
+                self.to_orig(vars(c)[k]) is vars(obj)[k] or self.to_orig(vars(c)[k]) == vars(obj)[k] for k in vars(obj))
+        return True
+
+    def unchanged(self):
+        """every container / object reachable at snapshot time has its snapshot contents"""
+        for i, o in self.orig.items():
+            if isinstance(o, tuple):
+                continue
+            if not self.same_state(o):
+                return False, _safe_repr(o, 120)
+        return True, None
+
+
+def _dict_keys_reachable(roots, limit=20000):
+    out, seen, todo = [], set(), list(roots)
+    while todo and len(seen) < limit:
+        x = todo.pop()
+        if isinstance(x, _ATOMS) or id(x) in seen:
+            continue
+        seen.add(id(x))
+        if isinstance(x, dict):
+            out.extend(x.keys())
+            todo.extend(x.values())
+        elif isinstance(x, (list, tuple, set, collections.deque)):
+            todo.extend(x)
+        elif (getattr(type(x), '__module__', '') or '').startswith('selfies') and hasattr(x, '__dict__'):
+            todo.extend(vars(x).values())
+    return out
+
+
+# ------------------------------------------------------------------------------------------ run-time spec forms
+_CTX = [None]       # the call whose clauses are being evaluated (evaluation phases never nest)
+
+
+def _ctx():
+    c = _CTX[0]
+    if c is None:
+        raise NotEvaluable('no call context')
+    return c
+
+
+def _split_top(s, sep='|'):
+    out, depth, cur = [], 0, ''
+    for ch in s:
+        if ch in '[(':
+            depth += 1
+        elif ch in '])':
+            depth -= 1
+        if ch == sep and depth == 0:
+            out.append(cur)
+            cur = ''
+        else:
+            cur += ch
+    out.append(cur)
+    return [x.strip() for x in out]
+
+
+def typed(v, ty):
+    ty = ty.strip().strip('\'"')
+    alts = _split_top(ty, '|')
+    if len(alts) > 1:
+        return any(typed(v, t) for t in alts)
+    if ty.startswith('Optional[') and ty.endswith(']'):
+        return v is None or typed(v, ty[9:-1])
+    if ty in ('any', 'Any', 'object'):
+        return True
+    if ty == 'int':
+        return isinstance(v, int) and not isinstance(v, bool)
+    if ty == 'nat':
+        return isinstance(v, int) and not isinstance(v, bool) and v >= 0
+    if ty == 'str':
+        return isinstance(v, str)
+    if ty == 'bool':
+        return isinstance(v, bool)
+    if ty in ('None', 'none'):
+        return v is None
+    if ty == 'num':
+        return isinstance(v, (int, float)) and not isinstance(v, bool) and v not in (float('inf'), float('-inf'))
+    if ty == 'float':
+        return isinstance(v, float)
+    if ty == 'tuple':
+        return isinstance(v, tuple)
+    if ty.startswith('tuple<='):
+        return isinstance(v, tuple) and len(v) <= int(ty[7:])
+    if ty.startswith('tuple[') and ty.endswith(']'):
+        parts = _split_top(ty[6:-1], ',')
+        return isinstance(v, tuple) and len(v) == len(parts) and all(typed(a, p) for a, p in zip(v, parts))
+    if ty == 'list':
+        return isinstance(v, list)
+    if ty.startswith('list[') and ty.endswith(']'):
+        return isinstance(v, list) and all(typed(a, ty[5:-1]) for a in v)
+    if ty == 'dict':
+        return isinstance(v, dict)
+    if ty.startswith('dict[') and ty.endswith(']'):
+        return isinstance(v, dict) and all(typed(k, ty[5:-1]) for k in v)
+    if ty == 'set':
+        return isinstance(v, set)
+    if ty.startswith('iter[') or ty == 'gen':
+        return hasattr(v, '__next__')
+    if ty == 'ref':
+        return v is not None and not isinstance(v, (int, float, str, bool, tuple))
+    if ty == 'partial':
+        return isinstance(v, functools.partial)
+    return type(v).__name__ == ty
+
+
+def _ref_like(x):
+    return isinstance(x, (list, dict, set, collections.deque)) or (hasattr(x, '__dict__') and not isinstance(x, _ATOMS))
+
+
+def _eq(a, b):
+    """== of the contract language: identity on references, structural on tuples, value equality otherwise"""
+    if _ref_like(a) or _ref_like(b):
+        return a is b
+    if isinstance(a, tuple) and isinstance(b, tuple):
+        return len(a) == len(b) and all(_eq(x, y) for x, y in zip(a, b))
+    return a == b
+
+
+def _pk(p, name):
+    return p.keywords.get(name)
+
+
+def _pkhas(p, name):
+    return name in p.keywords
+
+
+def _fresh(x):
+    """allocated during the call: not part of the pre-state reachable from the arguments and declared globals"""
+    c = _ctx()
+    if c.snap is None:
+        raise NotEvaluable('fresh() before the snapshot')
+    return (_ref_like(x) or isinstance(x, functools.partial)) and id(x) not in c.snap.orig
+
+
+def _oldx(f, *vals):
+    c = _ctx()
+    if c.snap is None:
+        raise NotEvaluable('old() before the snapshot')
+    return c.snap.to_orig(f(*[c.snap.to_copy(v) for v in vals]))
+
+
+def _not_evaluable(name):
+    def f(*a, **k):
+        raise NotEvaluable(name + ' has no run-time counterpart')
+    return f
+
+
+def _anyvalue():
+    return list(_ctx().universe())
+
+
+def _same_dict_state(d):
+    return _ctx().snap.same_state(d)
+
+
+def _dict_eq(a, b):
+    return isinstance(a, dict) and isinstance(b, dict) and a == b
+
+
+def _dict_key_at(d, j):
+    ks = list(d.keys())
+    if not 0 <= j < len(ks):
+        raise NotEvaluable('dict_key_at outside the key vector')
+    return ks[j]
+
+
+def _re_fullmatch(pattern, s):
+    if not isinstance(s, str):
+        return False
+    if isinstance(pattern, re.Pattern):
+        return pattern.fullmatch(s) is not None
+    return re.fullmatch(pattern, s) is not None
+
+
+def _yielded_concat():
+    items = _ctx().yielded
+    if items is None:
+        raise NotEvaluable('not a generator call')
+    return ''.join(items)
+
+
+def _yielded_count():
+    items = _ctx().yielded
+    if items is None:
+        raise NotEvaluable('not a generator call')
+    return len(items)
+
+
+RUNTIME_HELPERS = {
+    'typed': typed,
+    'fresh': _fresh,
+    'allocated': lambda x: True,
+    '__eq': _eq, '__pk': _pk, '__pkhas': _pkhas, '__oldx': _oldx,
+    'memo_clean': lambda name: True,   # staleness of an lru_cache entry is not observable at run time
+    'anyvalue': _anyvalue,
+    'same_dict_state': _same_dict_state,
+    'dict_eq': _dict_eq,
+    'dict_key_at': _dict_key_at,
+    're_fullmatch': _re_fullmatch,
+    'ascii_str': lambda s: isinstance(s, str) and s.isascii(),
+    'inf': lambda: float('inf'),
+    'yielded_concat': _yielded_concat,
+    'yielded_count': _yielded_count,
+    'iter_pos': _not_evaluable('iter_pos'), 'iter_len': _not_evaluable('iter_len'),
+    'iter_exc': _not_evaluable('iter_exc'), 'iter_item': _not_evaluable('iter_item'),
+    'old': _not_evaluable('old() inside a spec function'),
+}
+
+
+class _Call:
+    """evaluation context of one monitored call"""
+
+    def __init__(self, monitored, env, roots):
+        self.m = monitored
+        self.env = env
+        self.roots = roots
+        self.snap = None
+        self.snap_env = None
+        self.yielded = None
+        self.result_roots = []
+        self._universe = None
+
+    def take_snapshot(self):
+        names = list(self.roots.keys())
+        self.snap = Snapshot([self.roots[n] for n in names])
+        self.snap_env = dict(self.env)
+        self.snap_env.update(dict(zip(names, self.snap.copies)))
+
+    def universe(self):
+        if self._universe is None:
+            keys = []
+            if self.snap is not None:
+                for d in self.snap.dicts:
+                    keys.extend(self.snap.memo[id(d)].keys())
+            keys.extend(_dict_keys_reachable(list(self.roots.values()) + self.result_roots))
+            out, seen = [], set()
+            for k in keys:
+                try:
+                    if k not in seen:
+                        seen.add(k)
+                        out.append(k)
+                except TypeError:
+                    pass
+            self._universe = out
+        return self._universe
+
+    def old(self, codes):
+        def __old(k, binds):
+            env = dict(self.snap_env)
+            env.update({n: self.snap.to_copy(v) for n, v in binds.items()})
+            return self.snap.to_orig(eval(codes[k], env))
+        return __old
 
 
 class Monitored:
@@ -47,24 +498,118 @@ class Monitored:
         self.ns = ns
         self.monitors = monitors
         self.sig = inspect.signature(real)
-        self.requires = [(cl, _compile(cl.expr)) for cl in contract.of('requires')]
-        self.ensures = []
-        for cl in contract.of('ensures'):
-            col = _OldCollector()
-            body = col.visit(copy.deepcopy(cl.expr))
-            ast.fix_missing_locations(body)
-            try:
-                self.ensures.append((cl, _compile(body), [_compile(o) for o in col.olds]))
-            except Exception:
-                pass
-        self.raises = [(cl, _compile(cl.expr) if cl.expr is not None else None) for cl in contract.of('raises')]
+        self.requires = [(cl, _rt(cl.expr)) for cl in contract.of('requires')]
+        self.ensures = [(cl,) + _with_olds(cl.expr) for cl in contract.of('ensures')]
+        self.on_raise = [(cl,) + _with_olds(cl.expr) for cl in contract.of('ensures_on_raise')]
+        self.yields = [(cl, _rt(cl.expr)) for cl in contract.of('yields')]
+        self.raises = [(cl, _rt(cl.expr) if cl.expr is not None else None) for cl in contract.of('raises')]
         self.ghosts = [cl.extra['name'] for cl in contract.of('ghost')]
+        self.is_gen = inspect.isgeneratorfunction(real)
+        self.global_names = monitors.globals_used(contract)
+        used = monitors.names_used(contract)
+        self.needs_snapshot = bool(used & {'old', 'fresh', 'same_dict_state', 'anyvalue'}) or any(
+            cl.extra.get('unchanged') for cl in contract.of('raises'))
 
     def oid(self, tag):
         t = self.c.target
         mod = t.split('::')[0].replace('selfies/', '').replace('utils/', '').replace('.py', '')
         return '%s.%s:%s' % (mod, t.split('::')[1], tag)
 
+    # -------------------------------------------------------------- phases
+    def _enter(self, ba):
+        """returns the call context, or None when the call is outside the contract's domain"""
+        mon = self.monitors
+        if self.ghosts:
+            return None
+        env = dict(self.ns)
+        live = mon.refresh_globals()
+        env.update(live)
+        env.update(ba.arguments)
+        roots = {k: v for k, v in live.items() if k in self.global_names}
+        roots.update(ba.arguments)
+        call = _Call(self, env, roots)
+        _CTX[0] = call
+        params = list(self.c.params)
+        if self.c.vararg and self.c.vararg_ann:
+            params.append((self.c.vararg, self.c.vararg_ann, None))
+        for (name, ann, dflt) in params:
+            if ann and name in ba.arguments:
+                try:
+                    if not typed(ba.arguments[name], ann):
+                        mon.count(self.oid('pre-miss'))
+                        return None
+                except Exception as e:
+                    mon.note_error(self.oid('pre'), e)
+                    return None
+        for cl, code in self.requires:
+            try:
+                ok = eval(code, env)
+            except Exception as e:      # a requires that cannot be evaluated: nothing is claimed for this call
+                mon.note_error(self.oid('pre'), e)
+                return None
+            if not ok:
+                mon.count(self.oid('pre-miss'))
+                return None
+        if self.needs_snapshot:
+            try:
+                call.take_snapshot()
+            except RecursionError:
+                return None
+        call.when = []
+        for cl, code in self.raises:
+            try:
+                call.when.append(True if code is None else bool(eval(code, env)))
+            except Exception as e:
+                mon.note_error(self.oid('raises-when'), e)
+                call.when.append(None)
+        return call
+
+    def _eval_posts(self, call, clauses, extra_env, kind):
+        mon = self.monitors
+        _CTX[0] = call
+        call._universe = None
+        env = call.env
+        env.update(mon.refresh_globals())
+        env.update(extra_env)
+        for cl, code, ocodes in clauses:
+            env['__old'] = call.old(ocodes)
+            oid = self.oid(cl.tag or '%s@%d' % (kind, cl.line))
+            try:
+                ok = eval(code, env)
+            except NotEvaluable as e:
+                mon.note_error(oid, e)
+                continue
+            except Exception as e:
+                mon.note_error(oid, e)
+                continue
+            mon.count(oid)
+            if not ok:
+                mon.violation(oid, kind, '%s false: %s' % (kind, ast.unparse(cl.expr)[:200]), call.desc, cl.props,
+                              result=_safe_repr(extra_env.get('result')))
+
+    def _on_exception(self, call, exc):
+        mon = self.monitors
+        allowed = [(i, cl) for i, (cl, code) in enumerate(self.raises) if _isa(exc, cl.extra['exc'])]
+        tag = 'raises:%s' % type(exc).__name__
+        mon.count(self.oid(tag))
+        if not allowed:
+            mon.violation(self.oid(tag), 'exc', 'undeclared %s: %s' % (type(exc).__name__, exc), call.desc, self.c.props)
+            return
+        if not any(call.when[i] in (True, None) for i, cl in allowed):
+            mon.violation(self.oid(tag + ':when'), 'exc', '%s raised outside its declared condition' % type(exc).__name__,
+                          call.desc, allowed[0][1].props)
+        if any(cl.extra.get('unchanged') for i, cl in allowed):
+            try:
+                same, what = call.snap.unchanged()
+                mon.count(self.oid(tag + ':unchanged'))
+                if not same:
+                    mon.violation(self.oid(tag + ':unchanged'), 'exc', 'state changed before %s was raised: %s'
+                                  % (type(exc).__name__, what), call.desc, allowed[0][1].props)
+            except NotEvaluable as e:
+                mon.note_error(self.oid(tag + ':unchanged'), e)
+        self._eval_posts(call, self.on_raise, {}, 'on-raise')
+
+    # -------------------------------------------------------------- the wrapper
     def __call__(self, *args, **kwargs):
         mon = self.monitors
         if mon.depth_guard:
@@ -74,85 +619,80 @@ class Monitored:
             ba.apply_defaults()
         except TypeError:
             return self.real(*args, **kwargs)
-        env = dict(self.ns)
-        env.update(ba.arguments)
-        call = (self.c.target, _safe_repr(ba.arguments))
-        skip = bool(self.ghosts)
         mon.depth_guard += 1
         try:
-            if not skip:
-                for cl, code in self.requires:
-                    try:
-                        ok = eval(code, env)
-                    except Exception as e:      # a requires that cannot be evaluated is not counted
-                        mon.note_error(self.oid('pre'), e)
-                        skip = True
-                        break
-                    if not ok:
-                        skip = True   # outside the contract's domain: nothing is claimed for this call
-                        mon.count(self.oid('pre-miss'))
-                        break
-            olds = []
-            if not skip:
-                for cl, code, ocodes in self.ensures:
-                    vals = []
-                    for oc in ocodes:
-                        try:
-                            vals.append(copy.deepcopy(eval(oc, env)))
-                        except Exception as e:
-                            vals.append(e)
-                    olds.append(vals)
+            call = self._enter(ba)
+            if call is not None:
+                call.desc = (self.c.target, _safe_repr(ba.arguments))
+        except RecursionError:
+            call = None
         finally:
             mon.depth_guard -= 1
+        if call is None:
+            return self.real(*args, **kwargs)
+        if self.is_gen:
+            return self._generator(call, args, kwargs)
         try:
             result = self.real(*args, **kwargs)
         except Exception as exc:
-            if skip:
-                raise
             mon.depth_guard += 1
             try:
-                allowed = [(cl, code) for cl, code in self.raises if _isa(exc, cl.extra['exc'])]
-                tag = 'raises:%s' % type(exc).__name__
-                mon.count(self.oid(tag))
-                if not allowed:
-                    mon.violation(self.oid(tag), 'exc', 'undeclared %s: %s' % (type(exc).__name__, exc), call,
-                                  self.c.props)
-                else:
-                    ok = False
-                    for cl, code in allowed:
-                        try:
-                            if code is None or eval(code, env):
-                                ok = True
-                        except Exception as e:
-                            mon.note_error(self.oid(tag), e)
-                            ok = True
-                    if not ok:
-                        mon.violation(self.oid(tag + ':when'), 'exc',
-                                      '%s raised outside its declared condition' % type(exc).__name__, call,
-                                      allowed[0][0].props)
+                self._on_exception(call, exc)
             finally:
                 mon.depth_guard -= 1
             raise
-        if skip:
-            return result
         mon.depth_guard += 1
         try:
-            env['result'] = result
-            for (cl, code, _), vals in zip(self.ensures, olds):
-                env['__old'] = vals
-                oid = self.oid(cl.tag or 'post@%d' % cl.line)
-                try:
-                    ok = eval(code, env)
-                except Exception as e:
-                    mon.note_error(oid, e)
-                    continue
-                mon.count(oid)
-                if not ok:
-                    mon.violation(oid, 'post', 'postcondition false: %s' % ast.unparse(cl.expr)[:200], call, cl.props,
-                                  result=_safe_repr(result))
+            call.result_roots = [result]
+            self._eval_posts(call, self.ensures, {'result': result}, 'post')
         finally:
             mon.depth_guard -= 1
         return result
+
+    def _generator(self, call, args, kwargs):
+        mon = self.monitors
+        call.yielded = []
+        gen = self.real(*args, **kwargs)
+        while True:
+            try:
+                item = next(gen)
+            except StopIteration:
+                break
+            except Exception as exc:
+                mon.depth_guard += 1
+                try:
+                    self._on_exception(call, exc)
+                finally:
+                    mon.depth_guard -= 1
+                raise
+            mon.depth_guard += 1
+            try:
+                _CTX[0] = call
+                env = call.env
+                env['item'] = item
+                for cl, code in self.yields:
+                    oid = self.oid(cl.tag or 'yields@%d' % cl.line)
+                    try:
+                        ok = eval(code, env)
+                    except Exception as e:
+                        mon.note_error(oid, e)
+                        continue
+                    mon.count(oid)
+                    if not ok:
+                        mon.violation(oid, 'yield', 'yielded item %r: %s false' % (item, ast.unparse(cl.expr)[:160]),
+                                      call.desc, cl.props)
+                if isinstance(item, str) and call.yielded is not None:
+                    call.yielded.append(item)
+                else:
+                    call.yielded = None     # yielded_concat()/yielded_count() are defined for str items
+            finally:
+                mon.depth_guard -= 1
+            yield item
+        mon.depth_guard += 1
+        try:
+            self._eval_posts(call, self.ensures, {'result': None}, 'post')
+        finally:
+            mon.depth_guard -= 1
 
 
 def _isa(exc, name):
@@ -168,8 +708,9 @@ def _safe_repr(x, limit=400):
 
 
 class Monitors:
-    def __init__(self, contracts, contract_modules):
+    def __init__(self, contracts, contract_modules, globals_decl=None, specs=None):
         """contracts: list of Contract; contract_modules: {path: imported python module of the contract file}"""
+        self.specs = specs or {}
         self.counts = {}
         self.violations = []
         self.errors = {}
@@ -179,6 +720,47 @@ class Monitors:
         self.contracts = contracts
         self.cmods = contract_modules
         self.raise_on_violation = False
+        self.max_violations = 200
+        self.globals_decl = dict(globals_decl or {})
+        for m in self.cmods.values():
+            g = getattr(m, 'GLOBALS', None)
+            if isinstance(g, dict):
+                self.globals_decl.update(g)
+        # spec functions and constants of every contract file are visible in every other one (as for the verifier)
+        shared = {}
+        for m in self.cmods.values():
+            for k, v in vars(m).items():
+                if not k.startswith('__') and k not in RUNTIME_HELPERS and k not in vars(api):
+                    shared.setdefault(k, v)
+        for m in self.cmods.values():
+            for k, v in shared.items():
+                m.__dict__.setdefault(k, v)
+            m.__dict__.update(RUNTIME_HELPERS)
+
+    def globals_used(self, contract):
+        """declared module globals named by the contract's clauses or by a spec function they reach: only these are
+        part of the snapshot taken at each call"""
+        gl = {k.split('::')[1] for k in self.globals_decl}
+        return self.names_used(contract) & gl
+
+    def names_used(self, contract):
+        names, seen, todo = set(), set(), []
+        for cl in contract.clauses:
+            for e in [cl.expr] + list(cl.extra.get('exprs', [])):
+                if isinstance(e, ast.AST):
+                    todo.append(e)
+        while todo:
+            e = todo.pop()
+            for n in ast.walk(e):
+                if isinstance(n, ast.Name):
+                    names.add(n.id)
+                    sp = self.specs.get(n.id)
+                    if sp is not None and n.id not in seen:
+                        seen.add(n.id)
+                        node = getattr(sp, 'node', None)
+                        if node is not None:
+                            todo.append(node)
+        return names
 
     def count(self, oid):
         self.counts[oid] = self.counts.get(oid, 0) + 1
@@ -189,17 +771,30 @@ class Monitors:
     def violation(self, oid, kind, detail, call, props, **kw):
         v = {'oid': oid, 'kind': kind, 'detail': detail, 'call': call, 'props': list(props)}
         v.update(kw)
-        self.violations.append(v)
+        if len(self.violations) < self.max_violations:
+            self.violations.append(v)
         if self.raise_on_violation:
             raise ContractViolation(oid, kind, detail, call)
+
+    def refresh_globals(self):
+        """live values of the declared module globals (they are rebound by the code under test)"""
+        live = {}
+        for key in self.globals_decl:
+            rel, name = key.split('::')
+            mod = sys.modules.get(rel[:-3].replace('/', '.'))
+            if mod is not None and hasattr(mod, name):
+                live[name] = getattr(mod, name)
+        for m in self.cmods.values():
+            m.__dict__.update(live)
+        return live
 
     def runtime_ns(self, c):
         ns = {}
         ns.update({k: getattr(api, k) for k in dir(api) if not k.startswith('_')})
-        ns.update(RUNTIME_HELPERS)
         m = self.cmods.get(c.file)
         if m is not None:
             ns.update({k: v for k, v in vars(m).items() if not k.startswith('__')})
+        ns.update(RUNTIME_HELPERS)
         return ns
 
     def install(self, only=None):
@@ -214,6 +809,7 @@ class Monitors:
             mod = importlib.import_module(rel[:-3].replace('/', '.'))
             ns = self.runtime_ns(c)
             ns.update(vars(mod))
+            ns.update(RUNTIME_HELPERS)
             if '.' in qual:
                 cname, mname = qual.split('.')
                 cls = getattr(mod, cname)
@@ -229,7 +825,6 @@ class Monitors:
             real = getattr(mod, qual, None)
             if real is None:
                 continue
-            base = getattr(real, '__wrapped__', None)
             w = Monitored(c, real, ns, self)
             fw = _as_function(w, real)
             for m in mods:
@@ -246,53 +841,17 @@ class Monitors:
 
 
 def _as_function(w, real):
-    @functools.wraps(real)
-    def wrapper(*a, **k):
-        return w(*a, **k)
+    if w.is_gen:
+        @functools.wraps(real)
+        def wrapper(*a, **k):
+            r = w(*a, **k)
+            return r
+    else:
+        @functools.wraps(real)
+        def wrapper(*a, **k):
+            return w(*a, **k)
     for attr in ('cache_clear', 'cache_info'):
         if hasattr(real, attr):
             setattr(wrapper, attr, getattr(real, attr))
     wrapper._monitor = w
     return wrapper
-
-
-def typed(v, ty):
-    ty = ty.strip()
-    if '|' in ty:
-        return any(typed(v, t) for t in ty.split('|'))
-    if ty in ('any', 'Any', 'object'):
-        return True
-    if ty == 'int':
-        return isinstance(v, int) and not isinstance(v, bool)
-    if ty == 'nat':
-        return isinstance(v, int) and v >= 0
-    if ty == 'str':
-        return isinstance(v, str)
-    if ty == 'bool':
-        return isinstance(v, bool)
-    if ty in ('None', 'none'):
-        return v is None
-    if ty == 'num':
-        return isinstance(v, (int, float))
-    if ty == 'float':
-        return isinstance(v, float)
-    if ty == 'tuple':
-        return isinstance(v, tuple)
-    if ty.startswith('tuple<='):
-        return isinstance(v, tuple) and len(v) <= int(ty[7:])
-    if ty == 'list':
-        return isinstance(v, list)
-    if ty == 'dict':
-        return isinstance(v, dict)
-    if ty == 'set':
-        return isinstance(v, set)
-    if ty == 'ref':
-        return v is not None
-    return type(v).__name__ == ty
-
-
-RUNTIME_HELPERS = {
-    'typed': typed,
-    'fresh': lambda x: True,        # allocation freshness is a static notion; not observable at run time
-    'allocated': lambda x: True,
-}
